@@ -191,13 +191,13 @@ def run(ctx):
         ctx.exhaustive = "all 36,032 CROSS quadruples of the 26-point lattice with edges shorter than 180 degrees (of 44,160 CROSS quadruples)"
     ctx.replay(cases, timeout=1200)
     if not q:
-        for _ in range(3):
+        for _ in range(5):
             sub = set(rnd.sample(range(1, 125), 16))
             r = ctx.tlc("Gen_Intersect", vlib.cfg(constants={"N": 2, "AIdx": sub, "SubIdx": sub}, invariants=GEN_INV), workers=8)
             ctx.replay(r.tagged.get("CASE", []))
     # ---- direction B ---------------------------------------------------------------
-    for k in range(1 if q else 4):
-        events = trace_direction(ctx, "Trace_Intersect", "c16", "c16", 30000 if q else 75000, _case_of,
+    for k in range(1 if q else 6):
+        events = trace_direction(ctx, "Trace_Intersect", "c16", "c16", 30000 if q else 100000, _case_of,
                                  lambda e: e["cls"] != "random" or not e["st"], _detail, key_of=_key_of,
                                  seed=ctx.seed * 1000 + k)
         ctx.counters["float_stable_accepted"] = ctx.counters.get("float_stable_accepted", 0) + sum(1 for e in events if e["st"])
